@@ -101,7 +101,16 @@ def misc_program(rng, far=False):
         e = rng.choice([{'lab': rng.choice(labels)}, {'pos': [rng.choice(labels), {'i': rng.choice([0x08000000, 0x20000000, 0x7ffff800])}]},
                         {'sum': [{'lab': rng.choice(labels)}, rng.choice([4, 0x1000])]}])
         body.append({'k': 'pseudo', 'm': 'li', 'ops': [R(), e]})
+    clash = []
+    for k in range(2):
+        # a constant and a label that share a name (separate namespaces: the constant is what an operand means)
+        name = 'NC%d' % k
+        v = rng.choice([0x20000100, 0x12345678, 5, -7, 0x7ff, 0x800, 0xfffff800])
+        clash.append({'k': 'const', 'name': name, 'value': v, 'text': str(v)})
+        body.append({'k': 'pseudo', 'm': 'li', 'ops': [R(), {'c': name}]})
+        body.append({'k': 'label', 'name': name})
     rng.shuffle(body)
+    body = clash + body
     half = len(body) // 2
     items += body[:half] + [{'k': 'label', 'name': 'B'}] + body[half:] + [{'k': 'label', 'name': 'C'}, {'k': 'pseudo', 'm': 'ret', 'ops': []}]
     if far:
@@ -112,6 +121,25 @@ def misc_program(rng, far=False):
                   {'k': 'pseudo', 'm': 'call', 'ops': [{'t': 'FAR'}]}]
     if rng.random() < 0.4:
         items = randprog.constify(rng, items, 0.2)
+    return items
+
+
+def named_location_program(rng, compress):
+    """`T = <address>` / `call T`: a name in a target position is a location, also when it is a constant.  The address is placed so
+    that the distance from the transfer has low 12 bits around 0 / 4 / 0x7fc (the auipc + jalr split and its +4 compensation)"""
+    n = rng.randrange(0, 6)
+    pos = n * (2 if compress else 4)                  # `nop` is 2 bytes under -c
+    m = rng.choice(['call', 'tail', 'call', 'tail', 'j', 'jal'])
+    if m in ('j', 'jal'):
+        dist = rng.choice([0x1000, 0x1004, 0xff000, 0xffffe, 0x7fc, 0x800, 2 * rng.randrange(0, 0x7ffff)])
+    else:
+        dist = rng.choice([0x20001000, 0x20001004, 0x20001008, 0x20000ffc, 0x200007fc, 0x20000800, 0x20000804, 0x100000, 0x100004, 0x1ff004, 0x7ffff000,
+                           0x20000000 + 2 * rng.randrange(0, 0x2000)])
+    T = pos + dist
+    items = [{'k': 'const', 'name': 'TLOC', 'value': T, 'text': rng.choice([str, hex])(T)}]
+    items += [{'k': 'pseudo', 'm': 'nop', 'ops': []} for _ in range(n)]
+    items.append({'k': 'pseudo', 'm': m, 'ops': [{'t': 'TLOC'}]})
+    items.append({'k': 'pseudo', 'm': 'ret', 'ops': []})
     return items
 
 
@@ -151,6 +179,9 @@ def run_case(asm, acc, case):
             lines = [c13.s_item(rng, it)[0] for it in items]
     for compress in (False, True):
         rcase = dict(case, compress=compress)
+        if case['kind'] == 'named':
+            items = named_location_program(random.Random('c05-named-%d-%d-%s' % (case['seed'], case['idx'], compress)), compress)
+            lines = None
         ex = progcheck.examine(asm, items, compress, seed='%s-%d' % (case['kind'], case['idx']), nregs=case.get('nregs', 5), lines=lines)
         if not ex.ok:
             acc['ctr']['refused'] += 1
@@ -182,6 +213,7 @@ def plan(tier, seed):
     cases += [{'kind': 'li', 'seed': seed, 'idx': i} for i in range(nli)]
     cases += [{'kind': 'misc', 'seed': seed, 'idx': i} for i in range(nmisc)]
     cases += [{'kind': 'far', 'seed': seed, 'idx': i} for i in range(nfar)]
+    cases += [{'kind': 'named', 'seed': seed, 'idx': i} for i in range(400 if tier == 'quick' else 20000)]
     nsh = 64 if tier == 'quick' else 512
     # far programs (MiB gaps) are the slow ones: spread them
     cases.sort(key=lambda c: c['kind'] != 'far')
